@@ -205,6 +205,31 @@ func TestC02_Families(t *testing.T) {
 			}
 		}
 	}
+	// versioned ids that share a name stem but sit in NO table family (Spencer-86/94/99, OGL-UK-1.0/2.0/3.0,
+	// W3C-..., Python-2.0/2.0.1, ...): every pair x form; by the shipped table they never match each other
+	for _, group := range cousins {
+		var out []string
+		for _, id := range group {
+			if len(tb.Positions(id)) == 0 && ParseVer(id).Tail == "" {
+				out = append(out, id)
+			}
+		}
+		if len(out) < 2 || len(out) > 12 {
+			continue
+		}
+		for _, x := range out {
+			for _, y := range out {
+				if x == y {
+					continue
+				}
+				for _, fx := range []string{"", "+"} {
+					for _, fy := range []string{"", "+"} {
+						jobs = append(jobs, job{tb.MakeLicTerm(x, fx, 0, "", 0, "", ""), tb.MakeLicTerm(y, fy, 0, "", 0, "", "")})
+					}
+				}
+			}
+		}
+	}
 	parallelFor(len(jobs), func(i int) { c02Do(rec, nil, jobs[i].a, jobs[i].b, "") })
 }
 
